@@ -479,6 +479,9 @@ fn gen_component(rng: &mut Rng) -> f64 {
         7 | 8 => 360.0 * rng.unit_f64(),          // hue-like
         9 => -400.0 + 1200.0 * rng.unit_f64(),    // far out of range
         10 => 100.0 * rng.unit_f64(),             // lightness-like
+        // in range, but where a shortcut keyed on `== 0.0` or on the exponent goes wrong: negative zero, a value that is
+        // subnormal in f32, the smallest normal f64
+        11 => *rng.pick(&[-0.0f64, 1.0e-40, f64::MIN_POSITIVE, 1.0 - f64::EPSILON, 1.0 + 2.0 * f32::EPSILON as f64]),
         _ => rng.unit_f64(),
     }
 }
